@@ -961,12 +961,13 @@ SCENARIOS = {
     "deep_recursion": sc_deep_recursion,
     "stack_overflow": sc_stack_overflow,
     "chan_close_pending": sc_chan_close_pending,
+    # found a genuine defect (ev/all-tasks handed out freed fibers), repaired in /repo by 8ccda6c
+    "all_tasks": sc_all_tasks,
 }
 
-# scenarios that reproduce a defect of the unchanged tree; generated only when asked for
-# (C01_EXTRA=all_tasks) so that the default check stays a usable regression signal
+# scenarios that reproduce an unrepaired defect of the unchanged tree would go here (generated only
+# when asked for with C01_EXTRA=<name>); none at present
 OPTIONAL = {
-    "all_tasks": sc_all_tasks,
 }
 
 
